@@ -810,3 +810,94 @@ proof fn lemma_roundtrip_PasswordAlgorithm(x: PasswordAlgorithm, enc: Seq<u8>)
     }
     lemma_algorithm_ext(u, x.0);
 }
+
+// ---------------------------------------------------------------- PASSWORD-ALGORITHMS round trip
+pub open spec fn pa_rt_ok(a: Algorithm) -> bool {
+    alg_of(alg_code(a.algorithm)) == a.algorithm && (a.params is Some ==> a.params->Some_0@.len() > 0) && pa_plen(a) <= 0xFFFF
+}
+// reading an item ignores what follows it
+proof fn lemma_pa_unwire_prefix(a: Algorithm, rest: Seq<u8>)
+    requires pa_rt_ok(a),
+    ensures pa_unwire(pa_wire(a) + rest) == Some(a), pa_plen_wire(pa_wire(a) + rest) == pa_plen(a), pa_wire(a).len() == 4 + pa_plen(a),
+{
+    let w = pa_wire(a);
+    let raw = w + rest;
+    let n = pa_plen(a);
+    lemma_be16_roundtrip(alg_code(a.algorithm) as int);
+    lemma_be16_roundtrip(n);
+    assert(raw.subrange(0, 2) =~= be16_seq(alg_code(a.algorithm) as int));
+    assert(raw.subrange(2, 4) =~= be16_seq(n));
+    assert(be16(raw.subrange(2, 4)) == n && raw.len() >= 4 + n);
+    let u = pa_unwire(raw)->Some_0;
+    if a.params is Some {
+        assert(raw.subrange(4, 4 + n) =~= a.params->Some_0@);
+        lemma_arc_vec(a.params->Some_0);
+    }
+    lemma_algorithm_ext(u, a);
+}
+proof fn lemma_pas_upto_prefix(l: Seq<Algorithm>, k: int, m: int)
+    requires 0 <= k <= m,
+    ensures pas_wire_upto(l, m).len() >= pas_wire_upto(l, k).len(),
+        pas_wire_upto(l, m).subrange(0, pas_wire_upto(l, k).len() as int) == pas_wire_upto(l, k),
+    decreases m - k,
+{
+    if k < m {
+        lemma_pas_upto_prefix(l, k, m - 1);
+        assert(pas_wire_upto(l, m).subrange(0, pas_wire_upto(l, k).len() as int) =~= pas_wire_upto(l, m - 1).subrange(0, pas_wire_upto(l, k).len() as int));
+    } else {
+        assert(pas_wire_upto(l, k).subrange(0, pas_wire_upto(l, k).len() as int) =~= pas_wire_upto(l, k));
+    }
+}
+// end of item k-1 without its padding (0 for k = 0), and its length
+pub open spec fn pas_end(l: Seq<Algorithm>, k: int) -> int { if k <= 0 { 0 } else { (pas_wire_upto(l, k - 1).len() + pa_wire(l[k - 1]).len()) as int } }
+pub open spec fn pas_prev(l: Seq<Algorithm>, k: int) -> int { if k <= 0 { 0 } else { pa_wire(l[k - 1]).len() as int } }
+#[verifier::spinoff_prover]
+#[verifier::rlimit(60)]
+proof fn lemma_pas_roundtrip_from(l: Seq<Algorithm>, k: int)
+    requires 0 <= k <= l.len(), forall|i: int| 0 <= i < l.len() ==> pa_rt_ok(#[trigger] l[i]),
+    ensures pas_unwire(pas_wire_upto(l, l.len() as int), pas_end(l, k), pas_prev(l, k)) == Some(l.subrange(k, l.len() as int)),
+    decreases l.len() - k,
+{
+    let n = l.len() as int;
+    let w = pas_wire_upto(l, n);
+    if k == n {
+        // the last item is not padded: its end is the end of the value
+        if n > 0 { assert(pas_end(l, n) == w.len()); }
+        assert(l.subrange(n, n) =~= Seq::<Algorithm>::empty());
+    } else {
+        let a = l[k];
+        assert(pa_rt_ok(a));
+        // item k starts at upto(l, k).len() = pas_end(k) + pad4(prev) and its bytes are pa_wire(a)
+        lemma_pas_upto_prefix(l, k, n);
+        lemma_pas_upto_prefix(l, k + 1, n);
+        let s = pas_wire_upto(l, k).len() as int;
+        assert(s == pas_end(l, k) + pad4(pas_prev(l, k))) by {
+            if k > 0 { assert(pas_wire_upto(l, k).len() == pas_wire_upto(l, k - 1).len() + pa_wire(l[k - 1]).len() + pad4(pa_wire(l[k - 1]).len() as int)); }
+        }
+        let pw = pa_wire(a);
+        assert(pas_wire_upto(l, k + 1).len() >= s + pw.len());
+        let tail = w.subrange(s, w.len() as int);
+        let rest = tail.subrange(pw.len() as int, tail.len() as int);
+        assert(tail =~= pw + rest) by {
+            assert forall|i: int| 0 <= i < pw.len() implies tail[i] == pw[i] by {
+                assert(w.subrange(0, pas_wire_upto(l, k + 1).len() as int)[s + i] == pas_wire_upto(l, k + 1)[s + i]);
+            }
+        }
+        lemma_pa_unwire_prefix(a, rest);
+        lemma_pas_roundtrip_from(l, k + 1);
+        assert(pas_end(l, k + 1) == s + pw.len());
+        assert(pas_end(l, k) < w.len());
+        assert(seq![a] + l.subrange(k + 1, n) =~= l.subrange(k, n));
+    }
+}
+// props: C01 C02
+proof fn lemma_roundtrip_PasswordAlgorithms(x: PasswordAlgorithms, enc: Seq<u8>)
+    requires forall|i: int| 0 <= i < pas_algs(x).len() ==> pa_rt_ok(#[trigger] pas_algs(x)[i]),
+    ensures PasswordAlgorithms::unwire(x.wire(enc), enc) == Some(x),
+{
+    let l = pas_algs(x);
+    lemma_pas_roundtrip_from(l, 0);
+    assert(l.subrange(0, l.len() as int) =~= l);
+    let p1 = choose|p: PasswordAlgorithms| pas_algs(p) == l;
+    lemma_pas_ext(x, p1);
+}
